@@ -1,0 +1,31 @@
+//go:build verif
+
+package prunner
+
+// VerifTakePersistRequest reports (and consumes) a pending persist request without blocking.
+// Only available with the "verif" build tag, used by the verification harness.
+func (r *PipelineRunner) VerifTakePersistRequest() bool {
+	select {
+	case <-r.persistRequests:
+		return true
+	default:
+		return false
+	}
+}
+
+// VerifWaitListIDs returns the ids of the jobs on the wait list of a pipeline, in order.
+func (r *PipelineRunner) VerifWaitListIDs(pipeline string) []string {
+	r.mx.RLock()
+	defer r.mx.RUnlock()
+
+	var ids []string
+	for _, j := range r.waitListByPipeline[pipeline] {
+		ids = append(ids, j.ID.String())
+	}
+	return ids
+}
+
+// VerifHasTimer reports if the job has a pending start timer
+func (j *PipelineJob) VerifHasTimer() bool {
+	return j.startTimer != nil
+}
